@@ -46,8 +46,9 @@ fn judge(ctx: &mut Ctx, text: &str, family: &str, want: Want) {
             Err(p) => {
                 let msg = p.rsplit_once(" @ ").map(|x| x.0).unwrap_or(&p);
                 // strip the concrete payload after ':' so that one defect has one signature
-                let class = msg.split(':').next().unwrap_or(msg);
-                ctx.violation(format!("C06 panic {entry} [{}] {}", panic_site(&p), clip(class.to_string(), 80)), format!("the parser panicked: {p}"), json!({"text": text, "entry": entry, "family": family}));
+                let class: String = msg.split([':', ';']).next().unwrap_or(msg).chars().map(|c| if c.is_ascii_digit() { '#' } else { c }).collect();
+                let class = class.replace("##", "#").replace("##", "#").replace("##", "#");
+                ctx.violation(format!("C06 panic {entry} [{}] {}", panic_site(&p), clip(class.clone(), 80)), format!("the parser panicked: {p}"), json!({"text": text, "entry": entry, "family": family}));
             }
             Ok(Ok(())) => {
                 ctx.hit(&format!("outcome:{entry}:accepted"));
